@@ -79,6 +79,7 @@ pub fn c01(tier: Tier) -> i32 {
     let out = run_nat(f_c01, cap(&tier), &|sink| {
         s1_values_flags(&plan, Scope::AllDirect, sink);
         s1d_shape_diversity(&plan, Scope::Data, sink);
+        s9_encoding(&plan, Scope::Data, sink);
         s2_register_identity(&plan, Scope::Data, sink);
         s4_shift_counts(&plan, sink);
         s5_division(&plan, sink);
@@ -89,7 +90,7 @@ pub fn c01(tier: Tier) -> i32 {
         }
     });
     run.findings.merge(out.findings.clone());
-    let mut sweeps = vec!["S0", "S1", "S1d", "S2", "S4", "S5", "S7(census only)", "S8a(census only)"];
+    let mut sweeps = vec!["S0", "S1", "S1d", "S9", "S2", "S4", "S5", "S7(census only)", "S8a(census only)"];
     if tier.is_thorough() {
         sweeps.push("S1'");
     }
@@ -192,6 +193,7 @@ pub fn c02(tier: Tier) -> i32 {
     let out = run_nat(f_c02, cap(&tier), &|sink| {
         s1_values_flags(&plan, Scope::AllDirect, sink);
         s1d_shape_diversity(&plan, Scope::Data, sink);
+        s9_encoding(&plan, Scope::AllDirect, sink);
         s4_shift_counts(&plan, sink);
         s5_division(&plan, sink);
         s7_control(&plan, sink);
@@ -202,7 +204,7 @@ pub fn c02(tier: Tier) -> i32 {
         }
     });
     run.findings.merge(out.findings.clone());
-    let mut sweeps = vec!["S0", "S1", "S1d", "S4", "S5", "S7", "S8a"];
+    let mut sweeps = vec!["S0", "S1", "S1d", "S9", "S4", "S5", "S7", "S8a"];
     if tier.is_thorough() {
         sweeps.push("S2");
         sweeps.push("S1'");
@@ -227,12 +229,13 @@ pub fn c03(tier: Tier) -> i32 {
     };
     let out = run_nat(f_c03, cap(&tier), &|sink| {
         s7_control(&plan, sink);
+        s9_encoding(&plan, Scope::AllDirect, sink);
         if plan.tier.is_thorough() {
             s1p_all_signatures(&plan, Scope::AllDirect, sink);
         }
     });
     run.findings.merge(out.findings.clone());
-    nat_evidence(&mut run, &census, &out, &["S0", "S7"]);
+    nat_evidence(&mut run, &census, &out, &["S0", "S7", "S9"]);
     generic_guards(&mut run, &out, 10_000);
     // every conditional branch observed both taken and not taken
     let mut bad = vec![];
@@ -309,6 +312,7 @@ pub fn c06(tier: Tier) -> i32 {
         s6_placement(&plan, sink);
         s1_values_flags(&plan, Scope::AllDirect, sink);
         s1d_shape_diversity(&plan, Scope::AllDirect, sink);
+        s9_encoding(&plan, Scope::AllDirect, sink);
         s2_register_identity(&plan, Scope::Data, sink);
         s4_shift_counts(&plan, sink);
         if plan.tier.is_thorough() {
@@ -316,7 +320,7 @@ pub fn c06(tier: Tier) -> i32 {
         }
     });
     run.findings.merge(out.findings.clone());
-    let mut sweeps = vec!["S0", "S5", "S6", "S1", "S1d", "S2", "S4"];
+    let mut sweeps = vec!["S0", "S5", "S6", "S1", "S1d", "S9", "S2", "S4"];
     if tier.is_thorough() {
         sweeps.push("S1'");
     }
